@@ -23,7 +23,7 @@ RULE = ('cases: seeded populations of 0-12 agents (after an add/remove history, 
         'query. Non-trivial query: the filter keeps some but not all agents AND involves a tag filter or >=2 types; distinct by '
         '(population signature, query).')
 ASSUMPTIONS = ['"every member is reachable" is checked as: each of the k members is drawn within 60*k draws (a uniform pick misses one with probability < 1e-25)']
-FLOORS = {'quick': {'queries': 6000, 'tag_zero_queries': 800, 'tag_queries': 3000, 'template_queries': 4000, 'empty_filters': 1500,
+FLOORS = {'quick': {'same_question_asked_of_an_unrelated_model_first': 1758, 'queries': 6000, 'tag_zero_queries': 800, 'tag_queries': 3000, 'template_queries': 4000, 'empty_filters': 1500,
                     'random_picks': 100000, 'reachability_checks': 700, 'shuffles': 8000, 'shuffles_reordered': 2000, 'size_preserving_swaps': 1500, 'big_populations': 6, 'ids_taken_over_by_new_objects': 100, 'nested_environment_agents': 300, 'removals_after_resident_attach': 60, 'secondary_environment_populations': 100, 'completed_model_populations': 80,
                     'reach:Core.Environment.get_agents': 100000, 'reach:Core.Environment.get_random_agent': 100000,
                     'reach:Core.Environment.shuffle': 8000},
@@ -135,6 +135,19 @@ def case_population(ctx, case):
         exp = [a for a in order if all(T in a.components for T in template) and (tag is None or a.tag == tag)]
         q = dict(template=[T.__name__ for T in template], tag=tag)
         before = (snapshot(model, universe, K), [id(a) for a in env])
+        if rng.random() < 0.5:
+            # an unrelated model, alive at the same time, whose few agents carry none of these components and no such tag, is asked the same
+            # question first (by the three query functions): its answer is 'nobody', and ours is our own
+            if not hasattr(case_population, 'decoy') or case_population.decoy[0] is not model:
+                dm = core.Model(seed=1)
+                for j in range(2):
+                    dm.environment.add_agent(core.Agent(f'd{j}', dm, tag=777))
+                case_population.decoy = (model, dm)
+            dm = case_population.decoy[1]
+            if template or tag is not None:
+                check(dm.environment.get_agents(*template, **kw) == [] and dm.environment.get_random_agent(*template, **kw) is None
+                      and dm.environment.shuffle(*template, **kw) == [], 'the unrelated model found agents matching a filter nobody there matches', query=q)
+                ctx.count('same_question_asked_of_an_unrelated_model_first')
         got = env.get_agents(*template, **kw)
         ctx.ev()
         ctx.count('queries')
